@@ -966,8 +966,8 @@ Qed.
 
 Theorem drive_reach ws gated n s d : reach ws s -> reach ws (fst (drive ws gated n s d)).
 Proof.
-  intros R. unfold drive. destruct (drive1 ws s d) as [s'|] eqn:E; cbn [fst]; [|assumption].
-  apply quiesce_reach. destruct d; cbn [drive1] in E.
+  intros R. unfold drive. destruct d; try (cbn [fst]; exact R);
+    (destruct (drive1 ws s _) as [s'|] eqn:E; cbn [fst]; [|assumption]; apply quiesce_reach; cbn [drive1] in E).
   - eapply run_reach; eauto.
   - econstructor; eauto.
   - eapply run_reach; eauto.
